@@ -202,7 +202,7 @@ def check_read(ctx, F, b, who, mask_field, step, fresh_test, fresh_post):
                 W0, M0 = ('in', (1, 'deref', ('f', 'current_word'))), _mask_in(mask_field)
                 tested_bit = sym.mk_bin('BitAnd', W0, M0)
                 cleared = (w == sym.mk_bin('BitXor', W0, tested_bit)) or (w[0] == 'bin' and w[1] == 'BitAnd' and W0 in (w[2], w[3]) and any(
-                    isinstance(o, tuple) and o and ((o[0] == 'un' and o[1] == 'Not' and o[2] == M0) or (o[0] == 'not' and o[1] == M0)) for o in (w[2], w[3])))
+                    isinstance(o, tuple) and o and ((o[0] == 'un' and o[1] == 'Not' and o[2] in (M0, tested_bit, sym.mk_bin('BitAnd', M0, W0))) or (o[0] == 'not' and o[1] in (M0, tested_bit))) for o in (w[2], w[3])))
                 if not cleared:
                     return ctx.bad('R4', role, b.defpath, 'the popped bit is not cleared from current_word (it ends as %s): write_bit ORs new bits into the word and relies on the bits above the mask being zero, so a 0 written after a popped 1 reads back as 1, and the export marker search sees stale bits' % sym.show(w)[:80],
                                    key=key, loc=rules.loc(b))
@@ -408,6 +408,10 @@ def _fold3(t):
                     return b
                 if b == Z:
                     return a
+            if op in ('Eq', 'Le', 'Ge') and a == b:
+                return ('int', 1)         # x == x whatever x is: the test no longer depends on it
+            if op in ('Ne', 'Lt', 'Gt') and a == b:
+                return ('int', 0)
             if op in ('Eq',) and a in (Z, O, A) and b in (Z, O, A):
                 return ('int', int(a == b))
             if op in ('Ne',) and a in (Z, O, A) and b in (Z, O, A):
